@@ -4,6 +4,9 @@ import fcntl, hashlib, json, os, random, re, subprocess, sys, time
 
 ROOT = os.path.dirname(os.path.dirname(os.path.abspath(__file__)))
 BUILD = os.path.join(ROOT, "build")
+# the tree under test.  Always /repo for registered checks; VERIF_REPO=<scratch worktree> lets a developer
+# run a check against a mutated copy without touching /repo.
+REPO = os.environ.get("VERIF_REPO", "/repo")
 COQ = os.path.join(ROOT, "coq")
 GOENV = dict(os.environ, GOFLAGS="-mod=mod", GOPROXY="off", GOSUMDB="off", GOTOOLCHAIN="local",
              CGO_ENABLED="0")
@@ -97,39 +100,47 @@ def strip_comments(src):
             i += 1
     return "".join(out)
 
-def build_coq():
-    """full .vo build (never -vos); no-op when up to date"""
-    with Lock("coq"):
-        for f in coq_sources():
-            m = FORBIDDEN.search(strip_comments(open(f).read()))
-            if m:
-                raise Broken("forbidden construct %r in %s" % (m.group(0), os.path.relpath(f, ROOT)))
-        rc, o, e = _run(["sh", "mkproject.sh"], cwd=COQ)
-        if rc != 0:
-            raise Broken("coq_makefile failed", o + e)
-        rc, o, e = _run(["timeout", "3000", "make", "-f", "Makefile.coq", "-j16"], cwd=COQ, timeout=3100)
-        if rc != 0:
-            m = re.search(r'File "\./([^"]+)", line (\d+)', o + e)
-            where = "%s:%s" % (m.group(1), m.group(2)) if m else "coq build"
-            raise Broken("Coq proof no longer checks at " + where, (o + e)[-3000:])
+def coq_targets(prop):
+    t = ["Properties/%s.vo" % prop]
+    run = os.path.join(COQ, "Run")
+    t += ["Run/" + f[:-2] + ".vo" for f in sorted(os.listdir(run)) if f.startswith("Run" + prop) and f.endswith(".v")]
+    return t
 
-def build_driver():
-    with Lock("ocaml"):
-        rc, o, e = _run(["sh", "build.sh"], cwd=os.path.join(ROOT, "ocaml"), timeout=1800)
+def build_coq(prop):
+    """full .vo build (never -vos) of the property's theorem file and wire wrappers; no-op when up to date"""
+    for f in coq_sources():
+        m = FORBIDDEN.search(strip_comments(open(f).read()))
+        if m:
+            raise Broken("forbidden construct %r in %s" % (m.group(0), os.path.relpath(f, ROOT)))
+    rc, o, e = _run([os.path.join(ROOT, "bin", "coqmake")] + coq_targets(prop), timeout=3200)
+    if rc != 0:
+        m = re.search(r'File "\./([^"]+)", line (\d+)', o + e)
+        where = "%s:%s" % (m.group(1), m.group(2)) if m else "coq build"
+        raise Broken("Coq proof no longer checks at " + where, (o + e)[-3000:])
+
+def build_driver(prop):
+    with Lock("ocaml-" + prop):
+        rc, o, e = _run(["sh", os.path.join(ROOT, "ocaml", "build.sh"), prop], timeout=1800)
         if rc != 0:
             raise Broken("extraction / OCaml driver build failed", (o + e)[-3000:])
 
-def build_harness(race=False):
-    """rebuild the Go harness against /repo's current working tree, hooks on"""
+def build_harness(prop, race=False):
+    """rebuild the property's Go harness against /repo's current working tree, hooks on (-tags verif)"""
     with Lock("go"):
         h = os.path.join(ROOT, "harness")
+        alt = REPO != "/repo"
+        tag = hashlib.md5(REPO.encode()).hexdigest()[:8] if alt else ""
+        modfile = os.path.join(BUILD, "go-%s.mod" % tag) if alt else os.path.join(h, "go.mod")
         try:
-            with open("/repo/go.sum", "rb") as a, open(os.path.join(h, "go.sum"), "wb") as b:
+            if alt:
+                open(modfile, "w").write(open(os.path.join(h, "go.mod")).read().replace("=> /repo", "=> " + REPO))
+            with open(os.path.join(REPO, "go.sum"), "rb") as a, open(modfile[:-4] + ".sum", "wb") as b:
                 b.write(a.read())
         except OSError:
             pass
-        out = os.path.join(BUILD, "vh-race" if race else "vh")
-        cmd = ["go", "build", "-tags", "verif"] + (["-race"] if race else []) + ["-o", out, "."]
+        out = os.path.join(BUILD, ("vh-race-" if race else "vh-") + prop + (("-" + tag) if alt else ""))
+        cmd = ["go", "build", "-tags", "verif"] + (["-race"] if race else []) + (["-modfile", modfile] if alt else []) + \
+              ["-o", out, "./cmd/" + prop.lower()]
         env = dict(GOENV)
         if race:
             env["CGO_ENABLED"] = "1"
@@ -177,11 +188,11 @@ def proof_status(prop):
     return res
 
 # ---------------------------------------------------------------- running
-def run_driver(fn, lines, timeout=3600):
+def run_driver(prop, fn, lines, timeout=3600):
     if not lines:
         return []
     data = ("\n".join(lines) + "\n").encode()
-    p = subprocess.run([os.path.join(ROOT, "ocaml", "driver"), fn], input=data, stdout=subprocess.PIPE,
+    p = subprocess.run([os.path.join(BUILD, "ocaml-" + prop, "driver"), fn], input=data, stdout=subprocess.PIPE,
                        stderr=subprocess.PIPE, timeout=timeout)
     if p.returncode != 0:
         raise Broken("model driver failed on %s" % fn, p.stderr.decode("utf-8", "replace")[-2000:])
@@ -193,10 +204,15 @@ def run_driver(fn, lines, timeout=3600):
                      p.stderr.decode("utf-8", "replace")[-2000:])
     return out
 
-def run_vh(cmd, lines, timeout=600, mem_kb=4 * 1024 * 1024, exe=None, per_case_timeout=None):
+def vh_exe(prop, race=False):
+    alt = REPO != "/repo"
+    tag = hashlib.md5(REPO.encode()).hexdigest()[:8] if alt else ""
+    return os.path.join(BUILD, ("vh-race-" if race else "vh-") + prop + (("-" + tag) if alt else ""))
+
+def run_vh(prop, cmd, lines, timeout=600, mem_kb=4 * 1024 * 1024, exe=None):
     """run the implementation on the cases; a dead/hung process is an observation:
     the journalled case gets the marker (!crash) / (!hang) and the rest run in a fresh process"""
-    exe = exe or os.path.join(BUILD, "vh")
+    exe = exe or vh_exe(prop)
     results = []
     start = 0
     jpath = os.path.join(BUILD, "journal_%d_%s" % (os.getpid(), cmd))
@@ -238,7 +254,9 @@ def run_vh(cmd, lines, timeout=600, mem_kb=4 * 1024 * 1024, exe=None, per_case_t
 
 # ---------------------------------------------------------------- findings
 def load_findings(prop):
-    p = os.path.join(ROOT, "known_findings.json")
+    """known_findings/<prop>.json: list of {property, status: known|fixed, sig, what, commit?}.
+    Never written at run time.  Only status=known entries print KNOWN-FINDING and are excused."""
+    p = os.path.join(ROOT, "known_findings", prop + ".json")
     if not os.path.exists(p):
         return []
     return [f for f in json.load(open(p)) if f.get("property") == prop]
@@ -265,16 +283,16 @@ class Check:
     # -- builds
     def prepare(self, harness=True, race=False):
         try:
-            build_coq()
+            build_coq(self.prop)
             self.proofs = proof_status(self.prop)
-            build_driver()
+            build_driver(self.prop)
         except Broken as b:
             self.broken.append(b)
         if harness:
             try:
-                build_harness()
+                build_harness(self.prop)
                 if race:
-                    build_harness(race=True)
+                    build_harness(self.prop, race=True)
             except Broken as b:
                 self.broken.append(b)
                 return False
@@ -292,11 +310,11 @@ class Check:
         if not lines:
             return []
         try:
-            exp = run_driver(run_fn, lines) if run_fn else [None] * len(lines)
-            obs = run_vh(vh_cmd, lines, timeout=timeout, mem_kb=mem_kb, exe=exe)
+            exp = run_driver(self.prop, run_fn, lines) if run_fn else [None] * len(lines)
+            obs = run_vh(self.prop, vh_cmd, lines, timeout=timeout, mem_kb=mem_kb, exe=exe)
             if len(obs) != len(lines):
                 raise Broken("harness returned %d answers for %d cases on %s" % (len(obs), len(lines), name))
-            oks = run_driver(ok_fn, ["(%s %s)" % (l, o) for l, o in zip(lines, obs)]) if ok_fn else ["1"] * len(lines)
+            oks = run_driver(self.prop, ok_fn, ["(%s %s)" % (l, o) for l, o in zip(lines, obs)]) if ok_fn else ["1"] * len(lines)
         except Broken as b:
             self.broken.append(b)
             return []
